@@ -131,15 +131,58 @@ Section Abstract.
        validated by the harness with a DKW band, not proved. *)
     Theorem C06_marginal_roundtrip_partial : forall (G P : Type) (seed_state : Z -> G)
         (quantile : list T -> list T -> list T) (okp : T -> Prop)
-        (ds : list (dim T)) (sds : list (sdim T G P)) dimi d ps mc g,
+        (ds : list (dim T)) (sds : list (sdim T G P)) dimi d ps mc g rs,
       nth_error ds dimi = Some d -> cond d = None ->
       (forall p, okp p -> dcdf d (dicdf d p None) None = p) -> Forall okp ps ->
-      exists xs, marginal_icdf T zero G P seed_state quantile ds sds ps dimi mc g = Some xs /\
+      exists xs, marginal_icdf T zero G P seed_state quantile ds sds ps dimi mc g rs = Some xs /\
                  xs = map (fun p => dicdf d p None) ps /\
                  marginal_cdf T zero one inf mul of_int nquad ds (ArrF xs) dimi = Some ps.
     Proof. exact (marginal_roundtrip_unconditional T zero one inf mul of_int nquad). Qed.
+
+    (* marginal_icdf of a CONDITIONAL variable is the numpy.quantile of column dim of one Monte-Carlo sample of the whole
+       model drawn with the caller's random_state (data flow; that the quantile approximates the inverse marginal cdf is
+       statistical: see C06_marginal_roundtrip_partial) ... *)
+    Theorem C06_marginal_icdf_is_sample_quantile : forall (G P : Type) (seed_state : Z -> G)
+        (quantile : list T -> list T -> list T) (ds : list (dim T)) (sds : list (sdim T G P)) dimi d j ps mc g rs,
+      nth_error ds dimi = Some d -> cond d = Some j ->
+      marginal_icdf T zero G P seed_state quantile ds sds ps dimi mc g rs =
+      Some (quantile (map (fun row => nth dimi row zero) (draw_sample T zero G P seed_state sds mc g rs)) ps).
+    Proof. exact (marginal_icdf_conditional T zero). Qed.
+    (* ... hence reproducible: a function of the initial generator state only (same int seed, whatever the global state;
+       int seed = Generator in the state default_rng(seed) produces) *)
+    Theorem C06_marginal_icdf_reproducible : forall (G P : Type) (seed_state : Z -> G)
+        (quantile : list T -> list T -> list T) (ds : list (dim T)) (sds : list (sdim T G P)) dimi ps mc g g' rs rs',
+      initial_state G seed_state g rs = initial_state G seed_state g' rs' ->
+      marginal_icdf T zero G P seed_state quantile ds sds ps dimi mc g rs =
+      marginal_icdf T zero G P seed_state quantile ds sds ps dimi mc g' rs'.
+    Proof. exact (marginal_icdf_reproducible T zero). Qed.
+
+    (* several points in one call: one entry per point, in the order given, entry r = the one nquad call of point r *)
+    Theorem C06_cdf_multi_point : forall (ds : list (dim T)) (rows : list (list T)),
+      length (cdf T zero one mul nquad ds rows) = length rows /\
+      (forall r x, nth_error rows r = Some x ->
+         nth_error (cdf T zero one mul nquad ds rows) r = Some (run_nq T zero one mul nquad ds (cdf_call T zero (length ds) x))) /\
+      (forall a b, cdf T zero one mul nquad ds (a ++ b) = cdf T zero one mul nquad ds a ++ cdf T zero one mul nquad ds b).
+    Proof. exact (cdf_rowwise T zero one mul nquad). Qed.
+    Theorem C06_cdf_input_forms : forall (ds : list (dim T)),
+      (forall v, cdf_in T zero one mul of_int nquad ds (VecF v) = cdf_in T zero one mul of_int nquad ds (MatF [v])) /\
+      (forall v, cdf_in T zero one mul of_int nquad ds (VecI v) = cdf_in T zero one mul of_int nquad ds (VecF (map of_int v))) /\
+      (forall m, cdf_in T zero one mul of_int nquad ds (MatI m) = cdf_in T zero one mul of_int nquad ds (MatF (map (map of_int) m))).
+    Proof. exact (cdf_input_forms T zero one mul of_int nquad). Qed.
+    Theorem C06_marginal_multi_point : forall (ds : list (dim T)) dimi (a b : list T),
+      marginal_pdf T zero one inf mul of_int nquad ds (ArrF (a ++ b)) dimi =
+        match marginal_pdf T zero one inf mul of_int nquad ds (ArrF a) dimi, marginal_pdf T zero one inf mul of_int nquad ds (ArrF b) dimi with
+        | Some ya, Some yb => Some (ya ++ yb) | _, _ => None end /\
+      marginal_cdf T zero one inf mul of_int nquad ds (ArrF (a ++ b)) dimi =
+        match marginal_cdf T zero one inf mul of_int nquad ds (ArrF a) dimi, marginal_cdf T zero one inf mul of_int nquad ds (ArrF b) dimi with
+        | Some ya, Some yb => Some (ya ++ yb) | _, _ => None end.
+    Proof. exact (marginal_pointwise T zero one inf mul of_int nquad). Qed.
   End Marginals.
 End Abstract.
+
+(* the Monte-Carlo sample of marginal_icdf never has fewer than 100000 rows *)
+Theorem C06_mc_size_at_least : forall ps pf n, fmc_size ps pf = Some n -> (100000 <= n)%Z.
+Proof. exact fmc_size_at_least. Qed.
 
 (* the real-number instance of the two order / ring side conditions *)
 Theorem C06_pdf_nonneg_R : forall (ds : list (dim R)) (row : list R),
@@ -192,6 +235,12 @@ Print Assumptions C06_marginal_cdf_is_integral.
 Print Assumptions C06_integrates_to_one_partial.
 Print Assumptions C06_marginal_dispatch.
 Print Assumptions C06_marginal_roundtrip_partial.
+Print Assumptions C06_marginal_icdf_is_sample_quantile.
+Print Assumptions C06_marginal_icdf_reproducible.
+Print Assumptions C06_cdf_multi_point.
+Print Assumptions C06_cdf_input_forms.
+Print Assumptions C06_marginal_multi_point.
+Print Assumptions C06_mc_size_at_least.
 Print Assumptions C06_pdf_nonneg_R.
 Print Assumptions C06_integrates_to_one_R_partial.
 Print Assumptions C06_float_entry_points.
